@@ -1,7 +1,7 @@
 //! C02 — wild-card propositions and restricted domains.
 
 use super::common::*;
-use crate::formulas::{Alphabet, Gen};
+use crate::formulas::{templates, Alphabet, Gen};
 use crate::report::Report;
 use crate::sem::{self, Checks, Entries};
 use crate::sweep::{label_families, NetCtx};
@@ -22,7 +22,13 @@ pub fn run(tier: &str) -> Result<Report, String> {
         sem::note_network(&mut rep, b);
         let alpha = Alphabet::extended(if b.n == 1 { 1 } else { 2 }, 2, 1, 2);
         let mut g = Gen::new(alpha.clone());
-        let fs: Vec<_> = g.closed_up_to(m).into_iter().filter(|f| f.uses_wild_or_dom()).collect();
+        let mut fs: Vec<_> = g.closed_up_to(m).into_iter().filter(|f| f.uses_wild_or_dom()).collect();
+        {
+            // template shapes beyond the node bound (nested / repeated domains, the same inner domain
+            // under different outer domains, wild-cards in duplicated sub-trees)
+            let probe = NetCtx::new(b.clone(), label_families(b, 1)[0].1.clone(), "probe");
+            fs.extend(templates(&probe.user, true, if tier == "quick" { 2 } else { 6 }).into_iter().filter(|f| f.uses_wild_or_dom()));
+        }
         for (desc, labels) in label_families(b, fams) {
             let ctx = NetCtx::new(b.clone(), labels, &desc);
             if rep.samples.len() < 6 {
@@ -51,6 +57,6 @@ pub fn run(tier: &str) -> Result<Report, String> {
         }
     }
     rep.set("slices", json!(slices));
-    rep.rule = "all closed extended formulae with at most max_nodes nodes that contain a wild-card or a domain, x every label family (context-set assignment), through model_check_extended_formula(_dirty), compared with the explicit-state oracle on every state x valid colour; plus the operator sweep: every unary/binary operator and every quantifier form with/without domains on EVERY coloured set (and every pair of sets) of tiny networks; distinct_nontrivial = distinct non-trivial (network, labels, verdict table)".into();
+    rep.rule = "all closed extended formulae with at most max_nodes nodes that contain a wild-card or a domain, plus the extended template families (nested and repeated domains, the same inner domain under different outer domains, pattern and duplicate shapes inside domain scopes), x every label family (context-set assignment), through model_check_extended_formula(_dirty), compared with the explicit-state oracle on every state x valid colour; plus the operator sweep: every unary/binary operator and every quantifier form with/without domains on EVERY coloured set (and every pair of sets) of tiny networks; distinct_nontrivial = distinct non-trivial (network, labels, verdict table)".into();
     Ok(rep)
 }
